@@ -328,6 +328,81 @@ def composite_streams(sl):
                                                                    outer.request_end == core.s_max(*[wire[n][1] for n in names])))
 
 
+def composite_two_clients(sl):
+    """two clients of one worker process run the SAME composite operation: one registered Composite runner object and one request
+    structure (the parameter source's items) are shared by both, as in a real race; each client has its own Elasticsearch client object.
+    Every order of the two sub-requests' start/end events; timestamps symbolic. Each client's sub-request timing is its own."""
+    clock = Clock()
+    clients = [Client(), Client()]
+    wire, gates, log = {}, {}, []
+
+    class Sub:
+        def __init__(self, op):
+            pass
+
+        async def __call__(self, es_, params):
+            who = clients.index(es_["default"])
+            g = gates[who]
+            await g[0].wait()
+            es_["default"].on_request_start()
+            s = clock.now
+            await g[1].wait()
+            es_["default"].on_request_end()
+            wire[who] = (s, clock.now)
+            return {"weight": 1, "unit": "ops", "success": True}
+
+        async def __aenter__(self):
+            return self
+
+        async def __aexit__(self, *a):
+            return False
+
+    structure = [{"name": "page", "operation-type": "search"}]  # one object, handed to every client by the parameter source
+    comp_holder = {}
+    order = []
+
+    async def one(who):
+        with clients[who].new_request_context() as outer:
+            res = await comp_holder["c"](clients[who], {"requests": structure})
+        return outer, res
+
+    async def main():
+        comp_holder["c"] = runner.Composite()  # the registry holds ONE runner object per operation type
+        for who in (0, 1):
+            gates[who] = [asyncio.Event(), asyncio.Event()]
+        tasks = [asyncio.create_task(one(0)), asyncio.create_task(one(1))]
+        await _settle()
+        pending = [(0, 0), (1, 0)]
+        while pending:
+            j = choose(len(pending), "next event")
+            who, g = pending.pop(j)
+            order.append((who, ("start", "end")[g]))
+            gates[who][g].set()
+            await _settle()
+            if g == 0:
+                pending.append((who, 1))
+                pending.sort()
+        return await asyncio.gather(*tasks, return_exceptions=True)
+
+    with shadowed(client_context, (), extra={"time": clock.time_ns()}), shadowed(runner, (), extra={"time": clock.time_ns(), "runner_for": Sub}):
+        results = _run(main)
+    core.note("event order", order)
+    core.trace("events", len(order))
+    for who, r in enumerate(results):
+        if isinstance(r, BaseException):
+            core.note("client %d raised" % who, repr(r))
+            observe("client %d: the composite operation completes whatever the other client does" % who, False)
+            continue
+        outer, res = r
+        dts = [d["dependent_timing"] for d in res["dependent_timing"] if d]
+        observe("client %d: one dependent timing" % who, len(dts) == 1)
+        if len(dts) == 1:
+            observe("client %d: its sub-request timing is its OWN wire request, not the other client's" % who,
+                    core.s_and(dts[0]["request_start"] == wire[who][0], dts[0]["request_end"] == wire[who][1], dts[0]["service_time"] == wire[who][1] - wire[who][0]))
+        observe("client %d: its logical request spans exactly its own wire request" % who,
+                core.s_and(outer.request_start == wire[who][0], outer.request_end == wire[who][1]))
+
+
 # the order in which aiohttp's tracing signals arrive for one HTTP request (aiohttp tracing reference; rally issue #1860 for the last one)
 WIRE_SEQUENCES = {
     "response with a body in one chunk": ["start", "end", "chunk"],
@@ -389,6 +464,10 @@ STUBS = ["clock: time.perf_counter inside esrally.client.context / time.time ins
          "wire requests are calls of on_request_start/on_request_end as the transport makes them"]
 
 HARNESSES = [
+    Harness("composite_two_clients", composite_two_clients, "symbolic", lambda tier: [{}],
+            reads=READS + [runner.Composite.__call__, runner.Composite.run_stream], stubs=STUBS + ["runner_for inside esrally.driver.runner returns gated stub runners"],
+            bounds={"clients": "2 sharing one Composite runner object and one request structure", "interleavings": "every order of the two sub-requests' start/end events"},
+            doc="composite operations of concurrent clients do not read each other's timings"),
     Harness("wire_hooks", wire_hooks, "symbolic", lambda tier: [{"requests": 1}, {"requests": 2}],
             reads=READS + [__import__("esrally.client.factory", fromlist=["x"]).EsClientFactory.create_async], stubs=["clock", "aiohttp itself is not run: its tracing signals are delivered by the harness in the documented orders (listed in the bounds)"],
             bounds={"wire requests": "1..2 in one logical request", "signal orders": sorted(WIRE_SEQUENCES)}, real_valued=True,
